@@ -1,5 +1,134 @@
 import Sentinel.Drv.Common
-/-! Driver for C16 (stub: replaced by the property's real driver) -/
+import Sentinel.Model.ChainSpec
+/-! Driver for C16: `model` = pooled slot-chain model (`Sentinel.Chain.step`), `spec` = the abstract reference
+    (`Sentinel.Chain.sstep`).  This file only parses op lines and prints results. -/
 namespace Sentinel.Drv.C16
-def run (_mode : String) : IO Unit := IO.eprintln "C16: driver not implemented"
+open Sentinel.Chain Sentinel.Drv
+
+def parseHook? : String → Option HB
+  | "hok" => some .ok
+  | "herr" => some .err
+  | "hpanic" => some .panic
+  | _ => none
+
+def parseRB? (s : String) : Option RB :=
+  match s with
+  | "pass" => some .pass
+  | "nil" => some .nil
+  | "wait" => some .wait
+  | "panic" => some .panic
+  | _ =>
+    let st : Option Style :=
+      if s.startsWith "bf" then some .fresh else if s.startsWith "bc" then some .ctx
+      else if s.startsWith "bo" then some .own else none
+    match st, (s.drop 2).toString.toNat? with
+    | some st, some typ => if typ < 256 then some (.block st typ) else none
+    | _, _ => none
+
+def parseHookOpt : List String → Option (Option HB)
+  | [] => some none
+  | [h] => (parseHook? h).map some
+  | _ => none
+
+def parseSlot? (tok : String) : Option SlotSpec :=
+  match tok.splitOn ":" with
+  | kind :: id :: ord :: beh :: rest =>
+    match id.toNat?, ord.toNat? with
+    | some id, some ord =>
+      if ord ≥ 4294967296 then none else
+      match kind with
+      | "p" =>
+        match (match beh with | "ok" => some PB.ok | "panic" => some PB.panic | _ => none), parseHookOpt rest with
+        | some b, some hk => some (.p { id := id, order := ord, beh := b, hook := hk })
+        | _, _ => none
+      | "r" =>
+        match parseRB? beh, parseHookOpt rest with
+        | some b, some hk => some (.r { id := id, order := ord, beh := b, hook := hk })
+        | _, _ => none
+      | "s" =>
+        match (match beh with | "ok" => some SB.ok | "pp" => some SB.pPassed | "pb" => some SB.pBlocked
+                              | "pc" => some SB.pCompleted | _ => none), rest with
+        | some b, [] => some (.s { id := id, order := ord, beh := b })
+        | _, _ => none
+      | _ => none
+    | _, _ => none
+  | _ => none
+
+def parseSlots? (ts : List String) : Option (List SlotSpec) := ts.mapM parseSlot?
+
+def parseOp? : List String → Option Op
+  | "chain" :: n :: slots => (parseSlots? slots).map (Op.chain n)
+  | ["add", n, slot] => (parseSlot? slot).map (Op.add n)
+  | ["entry", e, n] => some (.entry e n)
+  | ["whenexit", e, id, b] =>
+    match id.toNat?, parseHook? b with
+    | some id, some b => some (.whenexit e id b)
+    | _, _ => none
+  | ["exit", e] => some (.exit e)
+  | ["log"] => some .log
+  | ["ident", e] => some (.ident e)
+  | ["blockerr", e] => some (.blockerr e)
+  | ["globalorder"] => some .globalorder
+  | _ => none
+
+def showBE (b : BErr) : String := s!"{b.typ} {b.msg} {b.rule} {b.snap}"
+
+def showCall : Call → String
+  | .prep id => s!"P{id}"
+  | .check id => s!"R{id}"
+  | .passed id => s!"S{id}+"
+  | .blocked id (some b) => s!"S{id}-{b.typ}.{b.msg}.{b.rule}.{b.snap}"
+  | .blocked id none => s!"S{id}-nil"
+  | .completed id => s!"S{id}c"
+  | .handler id => s!"H{id}"
+
+def showIds (k : String) (xs : List Nat) : String := showList (xs.map fun i => k ++ toString i)
+def showNamed (xs : List (String × Nat)) : String := showList (xs.map fun p => s!"{p.1}:{p.2}")
+
+/-- first-seen numbering of addresses (the Go side numbers pointers the same way) -/
+def canon (seen : List Nat) (a : Nat) : List Nat × Nat :=
+  match seen.idxOf? a with
+  | some i => (seen, i)
+  | none => (seen ++ [a], seen.length)
+
+structure Seen where
+  cs : List Nat := []
+  ts : List Nat := []
+
+def showOut (sn : Seen) : Out → Seen × Option String
+  | .none => (sn, none)
+  | .bad => (sn, some "bad-op")
+  | .sorted p r s => (sn, some (showIds "P" p ++ " " ++ showIds "R" r ++ " " ++ showIds "S" s))
+  | .pass => (sn, some "pass")
+  | .block b => (sn, some ("block " ++ showBE b))
+  | .escaped => (sn, some "escaped")
+  | .ok => (sn, some "ok")
+  | .log l => (sn, some (showList (l.map showCall)))
+  | .unknown => (sn, some "?")
+  | .ident c t =>
+    let (cs, ci) := canon sn.cs c
+    let (ts, ti) := canon sn.ts t
+    ({ cs := cs, ts := ts }, some s!"ctx {ci} tr {ti}")
+  | .berr b => (sn, some (showBE b))
+  | .gorder p r s => (sn, some (showNamed p ++ " " ++ showNamed r ++ " " ++ showNamed s))
+
+def stepModel (st : State × Seen) (ts : List String) (_ : String) : (State × Seen) × Option String :=
+  match parseOp? ts with
+  | none => (st, some "bad-op")
+  | some op =>
+    let (s, o) := step st.1 op
+    let (sn, r) := showOut st.2 o
+    ((s, sn), r)
+
+def stepSpec (st : SState) (ts : List String) (_ : String) : SState × Option String :=
+  match parseOp? ts with
+  | none => (st, some "bad-op")
+  | some op =>
+    let (s, o) := sstep st op
+    (s, (showOut {} o).2)
+
+def run (mode : String) : IO Unit :=
+  if mode == "spec" then loop ({} : SState) stepSpec
+  else loop (({}, {}) : State × Seen) stepModel
+
 end Sentinel.Drv.C16
